@@ -167,6 +167,13 @@ Inductive arel : list (name * value) -> ast -> ast -> Prop :=
     arel s recv recv' -> Forall2 (arel s) args args' ->
     arel s (AMethod recv mname args) (AMethod recv' mname args')
 | ar_step s a t t' : arel s a t -> closed t -> seq known t t' -> arel s a t'
+| ar_gstep s a t v :
+    (* a closed redex replaced by the value that generated code computed for it at Generate time: the
+       reference semantics gives a value that the C01 relation relates to it (the generator's closures
+       capture only what they use) *)
+    arel s a t -> closed t ->
+    (exists k v1, (forall env, eval known k env t = Ok v1) /\ Sim.vrel v1 v) ->
+    arel s a (AConst v)
 
 with vrel : value -> value -> Prop :=
 | vr_int z : vrel (VInt z) (VInt z)
